@@ -1,7 +1,7 @@
 From CDD Require Import PyStr Val.
-From CDD Require CstRun AdhocRun GenRun MergeRun DocSplitRun LoopsRun NameSanRun OpenApiRun JsonSchemaRun FuncSigRun NormRun ExecRun SqlPkRun DefaultDocRun RewriteRun SyncRun DoctransRun RestDocRun CmpAstRun ClassFmtRun ExtractDefaultRun FindAstRun SqlColRun FuncFmtRun StyleDetectRun QuoteRun InferRun SetValueRun GoogleLineRun NumpyLineRun GoogleHeadRun GoogleScanRun EntitiesRun NumpyScanRun GoogleEmitRun NumpyEmitRun ArgReadRun ReindentRun.
+From CDD Require CstRun AdhocRun GenRun MergeRun DocSplitRun LoopsRun NameSanRun OpenApiRun JsonSchemaRun FuncSigRun NormRun ExecRun SqlPkRun DefaultDocRun RewriteRun SyncRun DoctransRun RestDocRun CmpAstRun ClassFmtRun ExtractDefaultRun FindAstRun SqlColRun FuncFmtRun StyleDetectRun QuoteRun InferRun SetValueRun GoogleLineRun NumpyLineRun GoogleHeadRun GoogleScanRun EntitiesRun NumpyScanRun GoogleEmitRun NumpyEmitRun ArgReadRun ReindentRun ForceDefaultsRun.
 
-Definition tables : list (string * (val -> val)) := CstRun.table ++ AdhocRun.table ++ GenRun.table ++ MergeRun.table ++ DocSplitRun.table ++ LoopsRun.table ++ NameSanRun.table ++ OpenApiRun.table ++ JsonSchemaRun.table ++ FuncSigRun.table ++ NormRun.table ++ ExecRun.table ++ SqlPkRun.table ++ DefaultDocRun.table ++ RewriteRun.table ++ SyncRun.table ++ DoctransRun.table ++ DoctransRun.table2 ++ DoctransRun.table3 ++ DoctransRun.table4 ++ DoctransRun.table5 ++ RestDocRun.table ++ RestDocRun.table2 ++ CmpAstRun.table ++ ClassFmtRun.table ++ ExtractDefaultRun.table ++ FindAstRun.table ++ SqlColRun.table ++ FuncFmtRun.table ++ StyleDetectRun.table ++ QuoteRun.table ++ InferRun.table ++ SetValueRun.table ++ GoogleLineRun.table ++ NumpyLineRun.table ++ GoogleHeadRun.table ++ GoogleScanRun.table ++ EntitiesRun.table ++ NumpyScanRun.table ++ GoogleEmitRun.table ++ NumpyEmitRun.table ++ ArgReadRun.table ++ ReindentRun.table.
+Definition tables : list (string * (val -> val)) := CstRun.table ++ AdhocRun.table ++ GenRun.table ++ MergeRun.table ++ DocSplitRun.table ++ LoopsRun.table ++ NameSanRun.table ++ OpenApiRun.table ++ JsonSchemaRun.table ++ FuncSigRun.table ++ NormRun.table ++ ExecRun.table ++ SqlPkRun.table ++ DefaultDocRun.table ++ RewriteRun.table ++ SyncRun.table ++ DoctransRun.table ++ DoctransRun.table2 ++ DoctransRun.table3 ++ DoctransRun.table4 ++ DoctransRun.table5 ++ RestDocRun.table ++ RestDocRun.table2 ++ CmpAstRun.table ++ ClassFmtRun.table ++ ExtractDefaultRun.table ++ FindAstRun.table ++ SqlColRun.table ++ FuncFmtRun.table ++ StyleDetectRun.table ++ QuoteRun.table ++ InferRun.table ++ SetValueRun.table ++ GoogleLineRun.table ++ NumpyLineRun.table ++ GoogleHeadRun.table ++ GoogleScanRun.table ++ EntitiesRun.table ++ NumpyScanRun.table ++ GoogleEmitRun.table ++ NumpyEmitRun.table ++ ArgReadRun.table ++ ReindentRun.table ++ ForceDefaultsRun.table.
 
 Definition dispatch (fn : str) (a : val) : val :=
   match lookup_fn fn tables with
